@@ -51,7 +51,7 @@ IsRange(e) == e \in {"range", "emptyRange"}
 
 \* "a numeric or numeric-sequence value"; the empty sequence is a don't-care
 NumericReadings(v) ==
-    CASE v \in {"i64", "f64", "seqi", "seqf"} -> {TRUE}
+    CASE v \in {"i64", "f64", "u64big", "seqi", "seqf"} -> {TRUE}
       [] v = "emptySeq" -> {TRUE, FALSE}
       [] OTHER -> {FALSE}          \* text, bool, missing, nested sequence, sequence of text
 
@@ -70,10 +70,11 @@ Allowed(x, c) ==
 -----------------------------------------------------------------------------
 (* Level B: the encoders' decline conditions *)
 
-\* data/metrics.rs Extract: i64/f64 push a point; null, bool and text are errors; one level
-\* of sequence is entered, a nested one is an error
-StreamOk(v) == v \in {"i64", "f64", "seqi", "seqf", "emptySeq"}
-NPoints(v) == CASE v \in {"i64", "f64"} -> 1 [] v \in {"seqi", "seqf"} -> 2 [] OTHER -> 0
+\* data/metrics.rs Extract: i64/f64 push a point (smaller integers and f32 are forwarded to
+\* them by sval; integers beyond i64 arrive as u128/i128); null, bool and text are errors; one
+\* level of sequence is entered, a nested one is an error
+StreamOk(v) == v \in {"i64", "f64", "u64big", "seqi", "seqf", "emptySeq"}
+NPoints(v) == CASE v \in {"i64", "f64", "u64big"} -> 1 [] v \in {"seqi", "seqf"} -> 2 [] OTHER -> 0
 
 \* SumPoints::into_points is always Some; RawPointSet::into_points is None without points
 IntoPointsSome(v, a) == IF a \in {"sum", "count"} THEN TRUE ELSE NPoints(v) > 0
